@@ -13,11 +13,13 @@ CONTAINERS = ["list", "ndarray", "csr", "csc", "lil"]
 FORMS = [(c, s) for c in CONTAINERS for s in ("upper", "sym")]
 # every other scipy.sparse container, sparse arrays, float and bool dense arrays
 EXTRA_FORMS = [("coo", "upper"), ("coo", "sym"), ("bsr", "upper"), ("bsr", "sym"), ("dok", "upper"), ("dok", "sym"), ("dia", "upper"), ("dia", "sym"),
-               ("csr_array", "upper"), ("csr_array", "sym"), ("coo_array", "sym"), ("ndarray_float", "sym"), ("ndarray_bool", "upper")]
+               ("csr_array", "upper"), ("csr_array", "sym"), ("coo_array", "sym"), ("ndarray_float", "sym"), ("ndarray_bool", "upper"),
+               # dense arrays in other memory layouts: Fortran order, a strided view, a read-only array
+               ("ndarray_F", "upper"), ("ndarray_F", "sym"), ("ndarray_float_F", "upper"), ("ndarray_strided", "sym"), ("ndarray_readonly", "upper")]
 RULE = (
     "sparse atlas graphs on 5-7 vertices (and disconnected unions of them with an extra edge) in rotating container forms against a cover of partners and inside 5-collections; ALL labelled simple graphs on <= 4 vertices, connected or not (75 graphs, every vertex relabelling "
     "included), all ordered pairs; each pair in 10 container/symmetry combinations "
-    "({nested list, ndarray, csr, csc, lil} x {upper-triangular, symmetric}, rotated against each other) plus coo/bsr/dok/dia matrices, csr/coo sparse arrays, float and bool dense arrays; "
+    "({nested list, ndarray, csr, csc, lil} x {upper-triangular, symmetric}, rotated against each other) plus coo/bsr/dok/dia matrices, csr/coo sparse arrays, float and bool dense arrays, dense arrays in Fortran order / as strided views / read-only; "
     "pairs with a disconnected graph additionally under every single deviation from the default RNG "
     "answers; collections: all ordered triples + pairs + one 4-collection from a 10-graph cover with "
     "mixed containers. Oracle: exact mGH on a largest connected component (any one when tied). "
@@ -66,6 +68,18 @@ def to_form(A, form):
         return M.astype(float)
     if c == "ndarray_bool":
         return M.astype(bool)
+    if c == "ndarray_F":
+        return np.asfortranarray(M)
+    if c == "ndarray_float_F":
+        return np.asfortranarray(M.astype(float))
+    if c == "ndarray_strided":
+        big = np.zeros((2 * M.shape[0], 2 * M.shape[1]), dtype=M.dtype)
+        big[::2, ::2] = M
+        return big[::2, ::2]
+    if c == "ndarray_readonly":
+        R = M.copy()
+        R.setflags(write=False)
+        return R
     return {"csr": sps.csr_matrix, "csc": sps.csc_matrix, "lil": sps.lil_matrix, "coo": sps.coo_matrix, "bsr": sps.bsr_matrix,
             "dok": sps.dok_matrix, "dia": sps.dia_matrix, "csr_array": sps.csr_array, "coo_array": sps.coo_array}[c](M)
 
